@@ -1154,7 +1154,11 @@ Proof.
       rewrite Hsec, app_nil_r. repeat split; auto.
     + destruct P as (<- & Hsec). exists []. rewrite Hsec, app_nil_r. split; reflexivity.
   - (* Memo *)
-    cbn [memo_on no_quirks negb] in H. exact (IH _ _ _ _ _ _ H Hinv).
+    cbn [memo_on no_quirks negb] in H.
+    destruct (go n m g ctx (set_alt s None)) as [r1 s2] eqn:E. use IH E.
+    destruct r1; try trivial_res H; inv_pair H.
+    + ok_elim P. cbn. do 3 eexists. split; [rewrite join_alt_alt; reflexivity|]. stsimpl. repeat split; auto.
+    + err_elim P. cbn. eexists. split; [rewrite join_alt_alt; reflexivity|]. stsimpl. exact Hsec.
   - (* Rec *)
     exact (IH _ _ _ _ _ _ H Hinv).
   - (* Var *)
